@@ -430,8 +430,29 @@ def handleConc (fs : List (String × String)) : String :=
   let calls := (getNat fs "callbacks").getD 0
   s!"{if overlap == 0 then "agree" else "DISAGREE"} {if overlap == 0 then "ok" else s!"BAD:concurrent-event-callbacks:{overlap}-of-{calls}"} nt={if calls > 50 then 1 else 0} br=conc "
 
+/-- C08 (simulator leg): Leave returned nil ⇒ a peer had been sent the departure; peers record "left" -/
+def handleLeave (fs : List (String × String)) : String := Id.run do
+  if (get fs "err").isSome then return "PARSE create"
+  let scenario := getD fs "scenario" "?"
+  let res1 := getD fs "res1" "-"
+  let res2 := getD fs "res2" "-"
+  let sent := (getInt fs "sentatreturn").getD (-1)
+  let left := (getNat fs "left").getD 0
+  let failed := (getNat fs "failed").getD 0
+  let listed := (getNat fs "listed").getD 0
+  let okReturned := (scenario == "plain" && res1 == "nil") || (scenario != "plain" && res2 == "nil")
+  let bad : Option String :=
+    if okReturned && sent == 0 then
+      some s!"leave-returned-nil-before-any-peer-was-sent-the-departure:{scenario}"
+    else if okReturned && failed > 0 then some s!"departure-recorded-as-failure-by-{failed}-peers"
+    else if okReturned && listed > 0 then some s!"departed-node-still-listed-by-{listed}-peers-after-20s"
+    else none
+  return s!"agree {match bad with | none => "ok" | some b => "BAD:" ++ b} nt={if left ≥ 2 then 1 else 0} br=leave-{scenario}-{res1}-{res2} "
+
 def handle (prop kind : String) (fs : List (String × String)) : String :=
   match kind with
+  | "leave" => handleLeave fs
+  | "leak" => s!"DISAGREE BAD:goroutines-still-blocked-after-shutdown:{getD fs "msg" "?"} nt=0 br=leak "
   | "src" => handleSrc fs
   | "conc" => handleConc fs
   | "hist" => handleHist prop fs
